@@ -6,7 +6,10 @@ import (
 	"bytes"
 	"encoding/json"
 	"fmt"
+	"os"
+	"path/filepath"
 	"runtime/debug"
+	"sort"
 	"testing"
 
 	"pgregory.net/rapid"
@@ -116,4 +119,42 @@ func firstDiff(a, b []byte) int {
 		return n
 	}
 	return -1
+}
+
+// ReplayRegress re-judges the committed regression cases of a property
+// (/verif/regress/<ID>/*.json: minimised failures found earlier, incl. those of
+// repaired defects). Runs on shard 0 only.
+func ReplayRegress(t *testing.T, prop string) {
+	if EnvShard() != 0 {
+		return
+	}
+	files, _ := filepath.Glob(filepath.Join(VerifRoot(), "regress", prop, "*.json"))
+	sort.Strings(files)
+	for _, path := range files {
+		b, err := os.ReadFile(path)
+		if err != nil {
+			Col.BrokenHarness(err.Error())
+			continue
+		}
+		var rec struct {
+			Check string          `json:"check"`
+			Case  json.RawMessage `json:"case"`
+		}
+		if err := json.Unmarshal(b, &rec); err != nil || Replayers[rec.Check] == nil {
+			Col.BrokenHarness("regression case " + path + " unusable")
+			continue
+		}
+		f, err := Replayers[rec.Check](rec.Case)
+		if err != nil {
+			Col.BrokenHarness("regression case " + path + ": " + err.Error())
+			continue
+		}
+		Col.Case(Hash64([]byte(path), rec.Case), true, "regression-corpus")
+		if f != nil {
+			var cs any
+			_ = json.Unmarshal(rec.Case, &cs)
+			Col.Violation(prop, rec.Check, "regress/"+filepath.Base(path), f.Signature, f.Msg, "regression-corpus", cs)
+			t.Errorf("%s: %s: %s", filepath.Base(path), f.Signature, f.Msg)
+		}
+	}
 }
